@@ -25,6 +25,14 @@ def run_case(case, rec, cid):
             rec.ev("RoundTrip", cid, p=proj_tp(p), d=proj_dur(d), ok=False, cls=type(v).__name__, r=proj_dur(d), eq=False)
         return True
     a, b = mk_tp(case["a"]), mk_tp(case["b"])
+    if case.get("also") is not None:      # the same minuend written differently, same subtrahend, same process
+        from harness.common import respellings
+        for q in respellings(a, random.Random(case["also"])):
+            st, d = outcome(lambda q=q: q - b)
+            if st == "ok":
+                rec.ev("SubTP", cid, a=proj_tp(q), b=proj_tp(b), d=proj_dur(d), ok=True, cls="")
+            else:
+                rec.ev("SubTP", cid, a=proj_tp(q), b=proj_tp(b), d=proj_dur(None), ok=False, cls=type(d).__name__)
     pa, pb = proj_tp(a), proj_tp(b)
     st, d = outcome(lambda: a - b)
     if st == "ok":
@@ -65,7 +73,10 @@ def expand(job):
             b = respell(rnd, m, a)
         else:
             b = gen.rand_point(rnd, m, wide=rnd.random() < 0.3, whole=rnd.random() < 0.85)
-        yield {"mode": sp, "a": a, "b": b}
+        case = {"mode": sp, "a": a, "b": b}
+        if "dec" not in a and a["prec"] == "hms" and a["hh"] < 24 and abs(a["y"]) < 900000 and rnd.random() < 0.1:
+            case["also"] = rnd.randrange(10 ** 6)
+        yield case
 
 
 def jobs(tier, seed):
